@@ -272,7 +272,12 @@ func randPhone(r *rand.Rand, ver int) []byte {
 		n = 10
 	}
 	p := make([]byte, n)
-	switch r.Intn(4) {
+	switch r.Intn(5) {
+	case 4: // all digits significant, also beyond 2^64-1 for the 20-digit form (a phone is a digit string, not an integer)
+		for k := range p {
+			p[k] = byte(r.Intn(10)<<4 | r.Intn(10))
+		}
+		p[0] = []byte{0x18, 0x19, 0x20, 0x99, 0x10}[r.Intn(5)]
 	case 0: // all zero
 	case 1: // plausible decimal phone
 		for k := range p {
